@@ -85,8 +85,8 @@ out-of-range dates, undefined enum numbers, invalid UTF-8, two oneof members set
 * of every environment without `Any` fields, and
 * of **every environment with `Any` fields**, provided every `j5_json` stored in the message (at
   any depth, also inside the proto content of another `Any`) is a *recognised chunk*
-  (`PVal.chunksOk`: the specification-side oracle `O.chunk` knows these very bytes; `ChunkLaws O`:
-  what it knows is compact JSON as `json.Compact` or the codec itself writes it — `PTree.Enc`) —
+  (`hg`, right alternative — `PVal.chunksOk`: the specification-side oracle `O.chunk` knows these
+  very bytes; `ChunkLaws O`: what it knows is compact JSON as `json.Compact` or the codec itself writes it — `PTree.Enc`) —
   that is the property's own quantifier "every stored `j5_json` is itself well-formed JSON", in the
   compact form:
 if the encoder returns bytes at all, the strict parser (`J5V.Json.parse`: exactly one RFC 8259
@@ -100,21 +100,21 @@ Missing for the full statement, and the only gap left: caller-supplied `j5_json`
 not JSON (the encoder inserts them verbatim: `C08_any_j5json_unchecked`), and well-formed
 `j5_json` that is *not compact* (whitespace, other escapes: the model has no lemma that the
 tokenizer reads a well-formed value the same way in any context). -/
-theorem C08_wellformed_partial (env : Env) (O : Oracle) (hC : ChunkLaws O)
+theorem C08_wellformed_partial (env : Env) (O : Oracle)
     (hO : FloatTextOk O) (root : String) (v : PVal) (bs : Bytes)
-    (hg : env.noAny = true ∨ v.chunksOk O = true)
+    (hg : env.noAny = true ∨ (ChunkLaws O ∧ v.chunksOk O = true))
     (h : encodeBytes env O root v = .ok bs) : ∃ t, parse bs = some t ∧ t.render = bs := by
-  obtain ⟨t, _, hb, hp⟩ := encodeBytes_parses' env O hC hO root v bs hg h
+  obtain ⟨t, _, hb, hp⟩ := encodeBytes_parses' env O hO root v bs hg h
   exact ⟨t, hp, hb.symm⟩
 
 /-- the strict parser returns exactly the tree the encoder built (numbers stay numbers, strings
 stay strings, member order and names as written; a recognised `j5_json` chunk in parsed form) -/
-theorem C08_parse_is_encoder_tree (env : Env) (O : Oracle) (hC : ChunkLaws O)
+theorem C08_parse_is_encoder_tree (env : Env) (O : Oracle)
     (hO : FloatTextOk O) (root : String) (v : PVal) (bs : Bytes)
-    (hg : env.noAny = true ∨ v.chunksOk O = true)
+    (hg : env.noAny = true ∨ (ChunkLaws O ∧ v.chunksOk O = true))
     (h : encodeBytes env O root v = .ok bs) :
     ∃ t, encodeTree env O root v = .ok t ∧ parse bs = some t := by
-  obtain ⟨t, ht, _, hp⟩ := encodeBytes_parses' env O hC hO root v bs hg h
+  obtain ⟨t, ht, _, hp⟩ := encodeBytes_parses' env O hO root v bs hg h
   exact ⟨t, ht, hp⟩
 
 /-- the bytes the encoder model writes for a `j5_json` do not depend on the specification-side
@@ -180,7 +180,8 @@ reads it) is the documented representation of the message:
 Missing for `C08_conforms_full`: `google.protobuf.Any` / `Any` with proto content (shape alone:
 `C08_any_shape`); an exposed oneof inlined from a flattened object. -/
 theorem C08_conforms_partial (c : Cfg) (hs : c.env.flat = true) (L : OracleLaws c.O)
-    (W : OracleWire c.O) (hC : ChunkLaws c.O) (root : String) (m : Fields) (bs : Bytes)
+    (W : OracleWire c.O) (hC : c.env.noAny = true ∨ ChunkLaws c.O) (root : String) (m : Fields)
+    (bs : Bytes)
     (hok : valOk c.env c.O (.object root) (.msg m) = true ∨
       valOk c.env c.O (.oneof root) (.msg m) = true)
     (henc : encodeBytes c.env c.O root (.msg m) = .ok bs) :
@@ -190,8 +191,8 @@ theorem C08_conforms_partial (c : Cfg) (hs : c.env.flat = true) (L : OracleLaws 
     rcases hok with hok | hok
     · exact valOk_chunksOk _ _ _ _ hok
     · exact valOk_chunksOk _ _ _ _ hok
-  obtain ⟨t', ht', _, hp⟩ := encodeBytes_parses' c.env c.O hC
-    (floatTextOk_of_laws c.O L) root (.msg m) bs (Or.inr hch) henc
+  obtain ⟨t', ht', _, hp⟩ := encodeBytes_parses' c.env c.O
+    (floatTextOk_of_laws c.O L) root (.msg m) bs (hC.elim Or.inl (fun h => Or.inr ⟨h, hch⟩)) henc
   rw [ht] at ht'; cases ht'
   exact ⟨t, hp, hc⟩
 
